@@ -107,28 +107,7 @@ func Walk(ctx context.Context, fileSystem fs.FS, prefix, delimiter, marker strin
 				strings.HasPrefix(path+"/", prefix) &&
 				strings.Contains(strings.TrimPrefix(path+"/", prefix), delimiter) {
 				skipflag = fs.SkipDir
-			} else {
-				if delimiter == "" {
-					dirobj, err := getObj(path+"/", d)
-					if err == ErrSkipObj {
-						return skipflag
-					}
-					if err != nil {
-						return fmt.Errorf("directory to object %q: %w", path, err)
-					}
-					if pastMax {
-						truncated = true
-						return fs.SkipAll
-					}
-					objects = append(objects, dirobj)
-					if (len(objects) + len(cpmap)) == int(max) {
-						newMarker = path
-						pastMax = true
-					}
-
-					return skipflag
-				}
-
+			} else if delimiter != "" {
 				// TODO: can we do better here rather than a second readdir
 				// per directory?
 				ents, err := fs.ReadDir(fileSystem, path)
@@ -140,6 +119,11 @@ func Walk(ctx context.Context, fileSystem fs.FS, prefix, delimiter, marker strin
 					return skipflag
 				}
 			}
+
+			// A directory stands for the key "path/". Whether it is an
+			// object of its own (explicit directory object) is decided by
+			// getObj below, after the marker and prefix checks, exactly as
+			// for files; its children are visited after it.
 			path += "/"
 		}
 
